@@ -57,7 +57,8 @@ Judge(cf, e) ==
          ELSE IF ~Perm(Lits(e.zs), Lits(e.ys)) THEN "SortPermutation"
          ELSE "ok"
     [] e.op = "via" ->
-         IF Has(e, "raise") THEN "SurvivesVia:raised:" \o e.how
+         IF Has(e, "notext") THEN "ok"        \* the term has no n3() text (n3() declines an IRI that cannot be written between < >): nothing reads back
+         ELSE IF Has(e, "raise") THEN "SurvivesVia:raised:" \o e.how
          ELSE IF TermEq(e.a, e.b) /\ e.same_class THEN "ok" ELSE "SurvivesVia:" \o e.how
     [] e.op = "trans" ->       \* equality observed on three terms must be transitive
          IF e.ab /\ e.bc /\ ~e.ac THEN "EqTransitive" ELSE "ok"
